@@ -2,4 +2,4 @@ import Sqljson.Audit
 import Sqljson.Props.C18
 open Sqljson
 #audit_ns C18 Sqljson.C18
-#audit C18 [Sqljson.Time.civilFromDays_daysFromCivil, Sqljson.Time.civilFromDays_spec, Sqljson.Time.newDate_eq, Sqljson.Time.newTime_eq, Sqljson.Time.newTimeTZ_eq, Sqljson.Time.newTimestamp_eq, Sqljson.Time.newTimestampTZ_eq, Sqljson.Time.date_roundtrip, Sqljson.Time.timestamp_roundtrip, Sqljson.Time.date_roundtrip_fixed, Sqljson.Time.timestamp_roundtrip_fixed, Sqljson.Time.Zone.resolves_fixed, Sqljson.Time.Zone.resolves_of_first, Sqljson.Time.Zone.lookup_off, Sqljson.Time.unmarshalJSON_panic_iff, Sqljson.Time.unmarshalJSON_one_byte, Sqljson.Time.layout_date, Sqljson.Time.layout_timeFormat, Sqljson.Time.layout_timeTZOutput, Sqljson.Time.layout_timestampFormat, Sqljson.Time.layout_timestampTZOutput]
+#audit C18 [Sqljson.Time.civilFromDays_daysFromCivil, Sqljson.Time.civilFromDays_spec, Sqljson.Time.newDate_eq, Sqljson.Time.newTime_eq, Sqljson.Time.newTimeTZ_eq, Sqljson.Time.newTimestamp_eq, Sqljson.Time.newTimestampTZ_eq, Sqljson.Time.date_roundtrip, Sqljson.Time.timestamp_roundtrip, Sqljson.Time.date_roundtrip_fixed, Sqljson.Time.timestamp_roundtrip_fixed, Sqljson.Time.Zone.resolves_fixed, Sqljson.Time.Zone.resolves_of_first, Sqljson.Time.Zone.lookup_off, Sqljson.Time.unmarshalJSON_never_panics, Sqljson.Time.unmarshalJSON_short, Sqljson.Time.layout_date, Sqljson.Time.layout_timeFormat, Sqljson.Time.layout_timeTZOutput, Sqljson.Time.layout_timestampFormat, Sqljson.Time.layout_timestampTZOutput]
